@@ -3,7 +3,11 @@ use std::ops::{RangeBounds, RangeToInclusive};
 use std::path::Path;
 
 use bytes::Buf;
+#[cfg(not(quickwit_oss_mrecordlog_verif))]
 use tracing::{debug, event_enabled, info, warn, Level};
+
+#[cfg(quickwit_oss_mrecordlog_verif)]
+use crate::verif_noop::{debug, event_enabled, info, warn};
 
 use crate::error::{
     AppendError, CreateQueueError, DeleteQueueError, MissingQueue, ReadRecordError, TruncateError,
@@ -105,6 +109,29 @@ impl MultiRecordLog {
         // Bytes written by recovery-time GC are not surfaced to any user-facing API.
         let _ = multi_record_log.run_gc_if_necessary()?;
         Ok(multi_record_log)
+    }
+
+    /// Verification hook: a log over an already constructed writer (no directory scan, no replay).
+    #[cfg(quickwit_oss_mrecordlog_verif)]
+    #[allow(dead_code)]
+    pub(crate) fn verif_new(
+        record_log_writer: RecordWriter<RollingWriter>,
+        in_mem_queues: mem::MemQueues,
+        persist_policy: PersistPolicy,
+    ) -> Self {
+        MultiRecordLog {
+            record_log_writer,
+            in_mem_queues,
+            next_persist: persist_policy.into(),
+            multi_record_spare_buffer: Vec::new(),
+        }
+    }
+
+    /// Verification hook: read access to the writer (cursor, tracked files).
+    #[cfg(quickwit_oss_mrecordlog_verif)]
+    #[allow(dead_code)]
+    pub(crate) fn verif_writer(&self) -> &RollingWriter {
+        self.record_log_writer.get_underlying_wrt()
     }
 
     #[cfg(test)]
